@@ -77,7 +77,10 @@ impl From<&Rgba> for Hsla {
                 _ => (red - green) / d + 4.,
             } * (360. / 6.);
             let mm = max + min;
-            let sat = d / if mm > 1. { -mm + 2. } else { mm };
+            let div = if mm > 1. { -mm + 2. } else { mm };
+            // A color within rounding distance of white or black has
+            // no saturation (rather than an infinite one).
+            let sat = if div > 0. { d / div } else { 0. };
             Self::new(hue, sat, mm / 2., rgba.alpha(), false)
         }
     }
